@@ -212,3 +212,13 @@ Definition swallows_all (r : row) : bool :=
 
 Lemma link_all_err_swallowers : map row_name (filter swallows_all C12_Table.redis_table) = ["PingCtx"].
 Proof. reflexivity. Qed.
+
+(* --- round 7: label arity of the metrics hook --- *)
+Lemma link_metrics_table : C12_Table.metrics_table = metrics_spec.
+Proof. reflexivity. Qed.
+
+Definition arity_ok (r : string * nat * list nat) : bool :=
+  match r with (_, n, uses) => forallb (Nat.eqb n) uses end.
+
+Lemma link_metrics_arity : forallb arity_ok C12_Table.metrics_table = true.
+Proof. vm_compute. reflexivity. Qed.
